@@ -66,7 +66,7 @@ pub fn control_witnesses() -> Vec<String> {
     bfs(
         vec![(vec![], digest(&root))],
         lex.len(),
-        &BfsCfg { max_depth: 12, max_states: 100_000, max_secs: 20.0 },
+        &BfsCfg { max_depth: 12, max_states: 100_000, max_secs: 300.0 },
         |h, s| {
             let mut nh = h.to_vec();
             nh.push(s);
@@ -74,7 +74,7 @@ pub fn control_witnesses() -> Vec<String> {
                 None => Step::Disabled,
                 Some(k) => {
                     let d = digest(&k);
-                    found.lock().unwrap().entry(k).or_insert(nh);
+keep_min_witness(&mut found.lock().unwrap(), k, nh);
                     Step::Next(d)
                 },
             }
